@@ -67,3 +67,9 @@ OBLIGATIONS += [{
     "checks": ["--bounds-check", "--pointer-check"],
     "expect_classes": ["postcondition", "precondition"], "expect_min": 4,
 }]
+
+# native replay shared by every obligation of this suite: secure-mode scenarios with mmap / mprotect wrapped by the linker
+WX_REPLAY = {"prog": "@suites/C16/replay_wx.cpp", "no_args": True, "sources": XS.LIB_SOURCES,
+             "flags": ["-O1", "-march=native", "-Wl,--wrap=mmap", "-Wl,--wrap=mprotect"]}
+for _o in OBLIGATIONS:
+    _o.setdefault("replay", WX_REPLAY)
